@@ -160,3 +160,71 @@ func readFileGeneric(file []byte) (jv, error) {
 	}
 	return jarr(jlist(nodesOut), jlist(prods), meta, jlist(bufs), views), nil
 }
+
+// artifactContent: what of an artifact's bytes is content. A glTF document lists the names of the extensions it
+// uses in `extensionsUsed` / `extensionsRequired` — SETS of names by the glTF 2.0 specification; polyform's writer fills
+// them by ranging over a Go map, so two writes of the very same artifact of the very same instance differ in the order
+// of these two lists and in nothing else (examples/graphs/ufo.json: ufo.glb, 5 byte variants). For .glb / .gltf the two
+// lists are sorted before the digest is taken; every other byte (the rest of the JSON chunk as it stands, the BIN
+// chunk, lengths, padding) is compared as written. Anything that does not parse is compared as raw bytes.
+func artifactContent(name string, data []byte) []byte {
+	lower := strings.ToLower(name)
+	switch {
+	case strings.HasSuffix(lower, ".gltf"):
+		if c, ok := canonGltfJSON(data); ok {
+			return c
+		}
+	case strings.HasSuffix(lower, ".glb"):
+		// header: magic, version, length; then chunks (length, type, payload), the first one JSON
+		if len(data) < 20 || string(data[:4]) != "glTF" || string(data[16:20]) != "JSON" {
+			return data
+		}
+		n := int(uint32(data[12]) | uint32(data[13])<<8 | uint32(data[14])<<16 | uint32(data[15])<<24)
+		if n < 0 || 20+n > len(data) {
+			return data
+		}
+		if c, ok := canonGltfJSON(data[20 : 20+n]); ok {
+			out := append([]byte{}, data[:20]...)
+			out = append(out, c...)
+			return append(out, data[20+n:]...)
+		}
+	}
+	return data
+}
+
+// canonGltfJSON: the document with its two extension-name lists sorted; the text of every other member is kept
+func canonGltfJSON(doc []byte) ([]byte, bool) {
+	var top map[string]json.RawMessage
+	if err := json.Unmarshal(doc, &top); err != nil {
+		return nil, false
+	}
+	for _, k := range []string{"extensionsUsed", "extensionsRequired"} {
+		raw, ok := top[k]
+		if !ok {
+			continue
+		}
+		var names []string
+		if err := json.Unmarshal(raw, &names); err != nil {
+			return nil, false
+		}
+		sort.Strings(names)
+		b, _ := json.Marshal(names)
+		top[k] = b
+	}
+	// members in their original order of appearance is not recoverable from a map: write them sorted by key, each
+	// with its original text (the writer's member order is fixed by its struct, so this loses nothing)
+	keys := make([]string, 0, len(top))
+	for k := range top {
+		keys = append(keys, k)
+	}
+	sort.Strings(keys)
+	var out bytes.Buffer
+	for _, k := range keys {
+		kb, _ := json.Marshal(k)
+		out.Write(kb)
+		out.WriteByte(':')
+		out.Write(top[k])
+		out.WriteByte('\n')
+	}
+	return out.Bytes(), true
+}
